@@ -167,7 +167,20 @@ def check_case(case, acc):
     probe = base(8).iloc[[6, 1, 4]].reset_index(drop=True) if f not in ENVONLY else base(8)  # caller arrays have 8 entries
     acc.calls += 1
     try:
-        ref = snapshot(build(f, D), probe)
+        dm0 = build(f, D)
+        ref = snapshot(dm0, probe)
+        # the same for later frames: the design evaluates the probe rows in every order, one after the other
+        if f not in ENVONLY:
+            for nm, M in (("common", dm0.common), ("group", dm0.group)):
+                if M is None:
+                    continue
+                for p in itertools.permutations(range(len(probe))):
+                    acc.calls += 1
+                    got = np.asarray(M.evaluate_new_data(probe.iloc[list(p)].reset_index(drop=True)).design_matrix, dtype=float)
+                    want = ref[nm]["probe"][list(p)]
+                    if got.shape != want.shape or not np.allclose(got, want, rtol=1e-9, atol=1e-12, equal_nan=True):
+                        problems.append(("rows-permuted", f"{nm}.evaluate_new_data on the probe rows in order {list(p)} is not the row-permuted result of the probe"))
+                        break
     except Exception as e:
         acc.case(case, "build-raises", sample=False)
         acc.violation("design-exists", exc_sig(e), case, f"{f!r} on the base frame raised {type(e).__name__}: {e}")
